@@ -46,10 +46,26 @@ impl UvMapping {
     ///
     /// returns: Option<(usize, [f64; 3])>
     pub fn triangle(&self, point: &Point2) -> Option<(usize, [f64; 3])> {
+        // The projection is done with `solid = true` so that a point inside a triangle stays where it
+        // is instead of being moved to the nearest edge of that triangle
         let result = self
             .tri_map
-            .project_local_point_and_get_location(point, false);
+            .project_local_point_and_get_location(point, true);
         let (_, (t_id, loc)) = result;
-        Some((t_id as usize, loc.barycentric_coordinates().unwrap()))
+        let barycentric = match loc.barycentric_coordinates() {
+            Some(bc) => bc,
+            None => {
+                // Strictly inside the triangle: the location carries no coordinates, compute them
+                let tri = self.tri_map.triangle(t_id);
+                let v0 = tri.b - tri.a;
+                let v1 = tri.c - tri.a;
+                let v2 = point - tri.a;
+                let den = v0.x * v1.y - v1.x * v0.y;
+                let b1 = (v2.x * v1.y - v1.x * v2.y) / den;
+                let b2 = (v0.x * v2.y - v2.x * v0.y) / den;
+                [1.0 - b1 - b2, b1, b2]
+            }
+        };
+        Some((t_id as usize, barycentric))
     }
 }
